@@ -107,7 +107,7 @@ def run(fn, init, transfer, refine=None, at_exit=None, extra_edges=None, entry=N
                     if s2 == s:
                         # not recognised as written: try the condition with its named temporaries
                         # written out (`if (writerPresent)` -> `if ((prev & kBit) != 0)`)
-                        xc = fn.expand_expr(cond)
+                        xc = fn.expand_expr(cond, use_block=b)
                         if xc is not cond:
                             s2 = refine(xc, idx == 0, s, b)
                             if s2 is None:
